@@ -12,6 +12,7 @@ mod c26;
 mod c28;
 mod c29;
 mod c30;
+mod c31;
 mod c34;
 
 fn main() {
@@ -57,6 +58,8 @@ fn main() {
         "c28-run" => c28::run(rest),
         "c29-replay" => c29::replay(rest),
         "c30-replay" => c30::replay(rest),
+        "c31-child" => c31::child(rest),
+        "c31-drive" => c31::drive(rest),
         "c34-replay" => c34::replay(rest),
         _ => {
             eprintln!("unknown command {cmd}");
